@@ -2,7 +2,17 @@ import AFV.Driver.Proto
 namespace AFV.Driver.C18
 open Lean AFV.Proto
 
-/-- Handler for property C18 requests (stub: not implemented yet). -/
-def handle (_req : Json) : Json := err "unimplemented"
+/-- `a ≤ b·(1 + tol)` over exact integers (a, b ≥ 0 scaled objective values; tol = tol_num/tol_den). -/
+def leTol (a b tolNum tolDen : Int) : Bool := a * tolDen ≤ b * (tolDen + tolNum)
+
+/-- {"op":"le","a":A,"b":B,"tol_num":n,"tol_den":d} → Bool. -/
+def handle (req : Json) : Json :=
+  match (field? req "op").bind getStr? with
+  | some "le" =>
+    match (field? req "a").bind getInt?, (field? req "b").bind getInt?,
+          (field? req "tol_num").bind getInt?, (field? req "tol_den").bind getInt? with
+    | some a, some b, some n, some d => if d > 0 then Json.bool (leTol a b n d) else err "malformed"
+    | _, _, _, _ => err "malformed"
+  | _ => err "bad-op"
 
 end AFV.Driver.C18
